@@ -193,7 +193,12 @@ fn analyse(log: &str, cwd: &Path, allowed_raw: &dyn Fn(&Path) -> bool, tcp_liste
                 if failed {
                     continue;
                 }
-                for p in quoted_paths(l) {
+                let mut paths = quoted_paths(l);
+                if name.starts_with("symlink") && paths.len() > 1 {
+                    // symlink(target, linkpath): only the link is created; the target is just text
+                    paths = vec![paths.pop().unwrap()];
+                }
+                for p in paths {
                     let pb = if Path::new(&p).is_absolute() { PathBuf::from(&p) } else { cwd.join(&p) };
                     m.file_writes += 1;
                     if !allowed(&pb) {
@@ -363,6 +368,25 @@ pub fn server_child(depth: usize) -> i32 {
             }
             let req = sess.server.request("textDocument/codeAction", json!({"textDocument": {"uri": uri}, "range": {"start": {"line": 0, "character": 0}, "end": {"line": 0, "character": n_chars}}, "context": {"diagnostics": []}}));
             sess.server.enqueue("codeAction-whole-line", req);
+            let _ = sess.server.run_default();
+            n += 1;
+        }
+    }
+    // the configured user dictionary is a symbolic link with a RELATIVE target (dotfile managers):
+    // adding a word must write inside the configured directory, not relative to the server's cwd
+    {
+        if let Ok(mut sess) = Session::new("c10") {
+            println!("world {}", sess.world.root.display());
+            let cfg = sess.world.user_dict.parent().unwrap().to_path_buf();
+            let _ = std::fs::create_dir_all(cfg.join("real"));
+            let _ = std::fs::write(cfg.join("real/dictionary.txt"), "thw\n");
+            let _ = std::os::unix::fs::symlink("real/dictionary.txt", &sess.world.user_dict);
+            let all = crate::c09::ops();
+            sess.send(&all[0]);
+            let _ = sess.server.run_default();
+            let uri = sess.uri(0);
+            let add = sess.server.request("workspace/executeCommand", json!({"command": "HarperAddToUserDict", "arguments": ["tset", uri]}));
+            sess.server.enqueue("add-through-symlink", add);
             let _ = sess.server.run_default();
             n += 1;
         }
@@ -702,7 +726,9 @@ fn run_hv_child(args: &[&str], report: &mut Report, label: &str) -> Option<(Moni
             if p == w.as_path() || p == w.join("docs") || p == w.join("docs/a.md") || p == w.join("docs/b.txt") {
                 return true;
             }
-            let ok_files = [w.join("cfg/dictionary.txt"), w.join("cfg/dictionary.txt.tmp"), w.join("data/stats.txt"), w.join("data/custom-stats/stats.txt")];
+            let ok_files = [w.join("cfg/dictionary.txt"), w.join("cfg/dictionary.txt.tmp"), w.join("data/stats.txt"), w.join("data/custom-stats/stats.txt"),
+                // where the user dictionary of the symlink session really lives (harness-made, and a legitimate place to save to)
+                w.join("cfg/real"), w.join("cfg/real/dictionary.txt"), w.join("cfg/real/dictionary.txt.tmp")];
             if ok_files.iter().any(|f| f == p) || p.starts_with(w.join("data/file_dictionaries")) {
                 return true;
             }
